@@ -266,7 +266,11 @@ def e2e_jwe(ctx):
     rng = ctx.rng
     n = 30 if ctx.tier == "quick" else 300
     batch = []
-    for _ in range(n):
+    # always present: each kind of header violation (and two acceptable headers) in each unauthenticated position, under both
+    # recipient policies and both header policies - the header of EVERY recipient is checked, also the ones after a usable one
+    fixed = [(hd, wh, va, st) for hd in ({"custom": "hi"}, {"x5c": [1, 2]}, {"cty": 7}, {"crit": ["absent"]}, {"crit": []}, {"typ": "JOSE"}, {"cty": "x", "jku": "https://a"})
+             for wh in ("recipient-0", "recipient-last", "unprotected") for va in (False, True) for st in (True, False)]
+    for i_ in range(len(fixed) + n):
         algs = rng.sample(["A128KW", "RSA-OAEP", "ECDH-ES+A128KW", "A128GCMKW"], rng.choice([2, 3]))
         strict = rng.random() < 0.6
         extra = rng.choice(EXTRAS)
@@ -276,6 +280,9 @@ def e2e_jwe(ctx):
         for k in ("alg", "kid", "epk", "enc", "zip", "iv", "tag", "apu", "apv", "p2s", "p2c", "skid"):   # members that steer the cryptography
             h.pop(k, None)
         where = rng.choice(["recipient-0", "recipient-last", "unprotected"])
+        if i_ < len(fixed):
+            h, where, verify_all, strict = fixed[i_]
+            h, extra = copy.deepcopy(h), None
         if where == "unprotected":
             v["unprotected"] = h
         else:
